@@ -145,7 +145,9 @@ fn gen_conn_random(rng: &mut Rng, len: usize) -> String {
                 submitted += 1;
                 outstanding += 1;
             }
-            40..=51 => ops.push(format!("c{}", rng.below(submitted + 1))),
+            40..=48 => ops.push(format!("c{}", rng.below(submitted + 1))),
+            // cancel without letting the router run: the orphan notice races the next operation (often an answer)
+            49..=51 => ops.push(format!("C{}", rng.below(submitted + 1))),
             52..=57 => ops.push(format!("p{}", rng.below(submitted + 1))),
             58..=87 => {
                 let j = match rng.below(4) {
@@ -164,7 +166,7 @@ fn gen_conn_random(rng: &mut Rng, len: usize) -> String {
                 };
                 ops.push(format!("u{}", s));
             }
-            90 => ops.push("x".into()),
+            90 => ops.push(if rng.chance(1, 3) { "w".into() } else { "x".into() }),
             91..=95 => ops.push("g".into()),
             _ => ops.push("G".into()),
         }
@@ -210,6 +212,39 @@ fn gen_conn_many(rng: &mut Rng, h: usize, reverse: bool, gated: bool) -> String 
     format!("conn {} {}", rng.below(2), ops.join(";"))
 }
 
+/// More than 1024 submissions behind a closed gate: the bounded submit channel fills up and callers park in
+/// `send().await` (`submitFull`; later `enqueue`, or `ChannelError` if the router ends first). And more than 1024
+/// stream ids orphaned for a second: the orphaner ends the router (`TooManyOrphanedStreamIds`).
+fn gen_capacity_cases(rng: &mut Rng, quick: bool, emit: &mut dyn FnMut(String)) {
+    let reps = if quick { 1 } else { 6 };
+    for _ in 0..reps {
+        for tail in [
+            "G", "x", "G;x", "G;u1500", "w", "G;w;s",
+            "c1026;G;p1027;r0", "C1027;G;p1026;p1028;r1;r0", "p1026;G;p1026;r1025;r1025",
+            "G;p1026;p1027;p1028;r1026;r0;x",
+        ] {
+            let n = rng.range(1026, 1034) as usize;
+            let wc = rng.below(2);
+            emit(format!("conn {} g;{};{}", wc, vec!["s"; n].join(";"), tail));
+        }
+        // the channel is exactly full / one short of full
+        emit(format!("conn 1 g;{};G;r0", vec!["s"; 1025].join(";")));
+        emit(format!("conn 0 g;{};x", vec!["s"; 1024].join(";")));
+        // orphan threshold: 1024 old orphans are tolerated, 1025 are not; orphans younger than 1 s do not count
+        for (n, tail) in [(1030usize, "t2000;s;r0"), (1024, "t2000;s;r0"), (1025, "t999;s;t1;s;r0"), (1025, "t500;S;t400;s;t100;s"), (1026, "r0;r0;t1000;s")] {
+            emit(format!("conn {} {};{}", rng.below(2), vec!["S"; n].join(";"), tail));
+        }
+        let n = rng.range(1025, 1040) as usize;
+        let mut ops: Vec<String> = vec!["s".to_owned(); n];
+        for k in 0..n {
+            ops.push(format!("c{}", k));
+        }
+        ops.push("t1000".into());
+        ops.push("s".into());
+        emit(format!("conn 1 {}", ops.join(";")));
+    }
+}
+
 pub fn generate(rng: &mut Rng, tier: Tier, emit: &mut dyn FnMut(String)) {
     let quick = tier == Tier::Quick;
     // hook level: exhaustive over 3 request ids / 3 stream ids
@@ -244,6 +279,11 @@ pub fn generate(rng: &mut Rng, tier: Tier, emit: &mut dyn FnMut(String)) {
     // longer schedules over a smaller alphabet (cancel after the response, late notices, id reuse)
     let calpha2 = ["s", "S", "c0", "p0", "r0", "u0"];
     gen_exhaustive(&calpha2, if quick { 6 } else { 7 }, "conn 1", emit);
+    // the orphan notice racing the response (cancel WITHOUT settling), write errors
+    let calpha3 = ["s", "C0", "C1", "r0", "r1", "c0", "w", "g", "G"];
+    gen_exhaustive(&calpha3, if quick { 4 } else { 5 }, "conn 1", emit);
+    gen_exhaustive(&calpha3, if quick { 3 } else { 4 }, "conn 1 s;s", emit);
+    gen_capacity_cases(rng, quick, emit);
     // all schedules that start with two submissions (so that answers can be out of order)
     gen_exhaustive(&calpha, if quick { 3 } else { 4 }, "conn 1 s;s", emit);
     // many requests in flight before the server answers anything: the highest stream id in flight crosses the
@@ -292,12 +332,6 @@ fn run_map(ops: &[&str], ctx: &mut Ctx) -> String {
     // for every allocation that has not been looked up ("answered") yet
     let mut held: HashMap<i16, u64> = HashMap::new();
     let mut orphaned_reqs: HashSet<u64> = HashSet::new();
-    // exact shadow of the orphan marks, valid while request ids are unique (as they are on a real connection):
-    // request -> its live stream, and the set of streams whose owner was abandoned
-    let mut req_stream: HashMap<u64, i16> = HashMap::new();
-    let mut orphan_streams: HashSet<i16> = HashSet::new();
-    let mut seen_reqs: HashSet<u64> = HashSet::new();
-    let mut unique_reqs = true;
     let mut fresh = 1_000_000u64;
     let mut out: Vec<String> = Vec::new();
 
@@ -324,11 +358,20 @@ fn run_map(ops: &[&str], ctx: &mut Ctx) -> String {
             }
         }
     }
+    /// Exact expectation while request ids are unique: orphan mark > handler > nothing.
+    struct Exact {
+        req_stream: HashMap<u64, i16>,
+        orphan_streams: HashSet<i16>,
+        seen_reqs: HashSet<u64>,
+        unique: bool,
+    }
+    let mut exact = Exact { req_stream: HashMap::new(), orphan_streams: HashSet::new(), seen_reqs: HashSet::new(), unique: true };
     fn lookup(
         m: &mut StreamMap,
         s: i16,
         held: &mut HashMap<i16, u64>,
         orphaned_reqs: &HashSet<u64>,
+        exact: &mut Exact,
         ctx: &mut Ctx,
     ) -> Lookup {
         let res = m.lookup(s);
@@ -347,6 +390,26 @@ fn run_map(ops: &[&str], ctx: &mut Ctx) -> String {
             (Lookup::Missing, Some(req)) => {
                 if !orphaned_reqs.contains(req) {
                     ctx.fail(format!("response on stream {} owed to request {} treated as unsolicited", s, req))
+                }
+            }
+        }
+        if exact.unique {
+            // the owner was abandoned while it held THIS stream => Orphaned; a live owner => its handler; else Missing
+            let want = if exact.orphan_streams.contains(&s) {
+                Lookup::Orphaned
+            } else if let Some(req) = held.get(&s) {
+                Lookup::Handler(*req)
+            } else {
+                Lookup::Missing
+            };
+            if res != want {
+                ctx.fail(format!("lookup of stream {} gave {:?}, the allocation/abandon history says {:?}", s, res, want));
+            }
+        }
+        if !exact.orphan_streams.remove(&s) {
+            if let Some(req) = held.get(&s) {
+                if exact.req_stream.get(req) == Some(&s) {
+                    exact.req_stream.remove(req);
                 }
             }
         }
@@ -369,6 +432,7 @@ fn run_map(ops: &[&str], ctx: &mut Ctx) -> String {
                 }
                 held.clear();
                 orphaned_reqs.clear();
+                exact = Exact { req_stream: HashMap::new(), orphan_streams: HashSet::new(), seen_reqs: HashSet::new(), unique: true };
                 out.push(if hs.is_empty() {
                     "h=-".to_owned()
                 } else {
@@ -388,7 +452,7 @@ fn run_map(ops: &[&str], ctx: &mut Ctx) -> String {
                 }
                 let (mut h, mut o, mut mi) = (0, 0, 0);
                 for id in s..s + n {
-                    match lookup(&mut m, id as i16, &mut held, &orphaned_reqs, ctx) {
+                    match lookup(&mut m, id as i16, &mut held, &orphaned_reqs, &mut exact, ctx) {
                         Lookup::Handler(_) => h += 1,
                         Lookup::Orphaned => o += 1,
                         Lookup::Missing => mi += 1,
@@ -400,19 +464,28 @@ fn run_map(ops: &[&str], ctx: &mut Ctx) -> String {
                 let Ok(n) = arg.parse::<u64>() else { return "bad-case".into() };
                 match c {
                     'a' => out.push(match alloc(&mut m, n, &mut held, ctx) {
-                        Some(id) => id.to_string(),
+                        Some(id) => {
+                            if !exact.seen_reqs.insert(n) {
+                                exact.unique = false; // a request id used twice: not a schedule of a real connection
+                            }
+                            exact.req_stream.insert(n, id);
+                            id.to_string()
+                        }
                         None => "full".to_owned(),
                     }),
                     'o' => {
                         m.orphan(n);
                         orphaned_reqs.insert(n);
+                        if let Some(s) = exact.req_stream.remove(&n) {
+                            exact.orphan_streams.insert(s);
+                        }
                         out.push("o".to_owned());
                     }
                     'l' => {
                         if n >= 32768 {
                             return "bad-case".into();
                         }
-                        out.push(match lookup(&mut m, n as i16, &mut held, &orphaned_reqs, ctx) {
+                        out.push(match lookup(&mut m, n as i16, &mut held, &orphaned_reqs, &mut exact, ctx) {
                             Lookup::Handler(r) => format!("H{}", r),
                             Lookup::Orphaned => "O".to_owned(),
                             Lookup::Missing => "M".to_owned(),
@@ -427,6 +500,8 @@ fn run_map(ops: &[&str], ctx: &mut Ctx) -> String {
                                     ok += 1;
                                     first.get_or_insert(id);
                                     last = Some(id);
+                                    exact.seen_reqs.insert(fresh);
+                                    exact.req_stream.insert(fresh, id);
                                 }
                                 None => failed += 1,
                             }
